@@ -6,6 +6,7 @@ import (
 	"fmt"
 	"io"
 	"math/rand"
+	"net"
 	"os"
 	"os/signal"
 	"strconv"
@@ -93,6 +94,7 @@ func TestRun(t *testing.T) {
 	gocbcore.VerifDial = func(ctx context.Context, addr string) (io.ReadWriteCloser, string, error) {
 		return w.cl.dial(addr)
 	}
+	gocbcore.VerifHTTPDial = func(network, addr string) (net.Conn, error) { return w.cl.httpDial(network, addr) }
 	synctest.Test(t, func(t *testing.T) {
 		w.t0 = time.Now()
 		w.wake = make(chan struct{}, 1) // channels must be created inside the bubble
